@@ -438,7 +438,7 @@ def workload(tier, rng, shard, nshards, work):
             for _ in range(nseg):
                 r = rng.random()
                 length = rng.choice(SEG_LENGTHS[:8]) if r < 0.45 else rng.choice(SEG_LENGTHS[8:])
-                segs.append((length, rng.choice(["a", "b", "c d", 'q"', ""]) if rng.random() < 0.65 else None))
+                segs.append((length, rng.choice(["a", "b", "c d", 'q"', "", "a", "b", "100% sure", "%d", "50%% creaky"]) if rng.random() < 0.65 else None))
             start = rng.choice([0.0, 0.0, 0.37, 1.0 / 3, 2.5, 3600.5, 86400.25, 100.0, 4096.0])  # also recordings whose time axis starts far from zero (the last two: on a whole second, where the text formats' number form has its near-integer rule)
             ents, end = assemble(start, segs)
             if not ents:
@@ -448,6 +448,12 @@ def workload(tier, rng, shard, nshards, work):
             data = {"min": tmin, "max": tmax, "tiers": [{"t": "I", "name": "r", "min": tmin, "max": tmax, "entries": ents}]}
             if rng.random() < 0.2:
                 data["tiers"].append({"t": "I", "name": "unlabelled", "min": tmin, "max": tmax, "entries": []})  # filled with one blank in the FILE
+            if rng.random() < 0.08:
+                # a sibling tier that is a few nanoseconds longer: the file ends a sliver after this tier's own end
+                longer = tmax + rng.choice([5e-9, 4e-9, 0.03])
+                data["tiers"].append({"t": "I", "name": "longer", "min": tmin, "max": longer, "entries": [(tmin, longer, "whole")]})
+                data["max"] = longer
+                REC.cls("C04:file-ends-a-sliver-after-the-tier")
             if rng.random() < 0.3:
                 # (a point tier stands anywhere among the interval tiers, also first)
                 data["tiers"].insert(rng.randrange(len(data["tiers"]) + 1), {"t": "P", "name": "pp", "min": tmin, "max": tmax, "entries": [(start, "p"), (start + 3e-9, "q")] if start + 3e-9 <= tmax else [(start, "p")]})
@@ -474,7 +480,7 @@ def workload(tier, rng, shard, nshards, work):
                 r = rng.random()
                 minT = maxT = None
                 if r < 0.12:
-                    maxT = tmax + rng.choice([0.25, 1.0])
+                    maxT = tmax + rng.choice([0.25, 1.0, 4e-9, 0.05, (thr or 1e-8) * 0.4])  # (also: less than the threshold behind the tier's own end)
                 elif r < 0.2:
                     maxT = tmax
                 elif r < 0.3:
